@@ -820,7 +820,7 @@ func classifyRace(text string) raceReport {
 		}
 	}
 	flush()
-	info := func(st []string) (lib, top string, harness, only bool) {
+	info := func(st []string) (lib, top string, harness, only bool, drv string) {
 		// top = the first frame owned by the library, the driver or the harness
 		// (frames above it are runtime / standard library helpers)
 		for _, fn := range st {
@@ -834,6 +834,9 @@ func classifyRace(text string) raceReport {
 			if isLib && lib == "" {
 				lib = fn
 			}
+			if isDrv && lib == "" {
+				drv = fn // ends as the driver entry point the library called
+			}
 			if isH {
 				harness = true
 			}
@@ -843,25 +846,29 @@ func classifyRace(text string) raceReport {
 		}
 		return
 	}
+	var drvA, drvB string
 	if len(stacks) >= 1 {
-		r.libA, r.topA, r.harnessA, r.onlyHarnessA = info(stacks[0])
+		r.libA, r.topA, r.harnessA, r.onlyHarnessA, drvA = info(stacks[0])
 	}
 	if len(stacks) >= 2 {
-		r.libB, r.topB, r.harnessB, r.onlyHarnessB = info(stacks[1])
+		r.libB, r.topB, r.harnessB, r.onlyHarnessB, drvB = info(stacks[1])
 	}
-	side := func(lib, top string) string {
+	// A side whose access happens inside the driver is named by the driver
+	// entry point the library called (the library's own function names do not
+	// matter for it); a side in library code is named by the library function.
+	side := func(lib, top, drv string) string {
 		if lib == "" {
 			return "(" + short(top) + ")"
 		}
-		if strings.HasPrefix(top, "github.com/Breeze0806/mysql") {
-			return short(lib) + "@driver"
+		if strings.HasPrefix(top, "github.com/Breeze0806/mysql") && drv != "" {
+			return "driver:" + short(drv)
 		}
 		if top != lib {
 			return short(lib) + "@" + short(top)
 		}
 		return short(lib)
 	}
-	a, bb := side(r.libA, r.topA), side(r.libB, r.topB)
+	a, bb := side(r.libA, r.topA, drvA), side(r.libB, r.topB, drvB)
 	if a > bb {
 		a, bb = bb, a
 	}
